@@ -1,22 +1,27 @@
 (** C09 - executable model of concurrent address issuance (one account branch).
 
     What is modelled (code read: wallet/wallet.go NewAddress, NewChangeAddress,
-    CurrentAddress; wallet/createtx.go txToOutputs; wallet/psbt.go FundPsbt;
-    wallet/import.go ImportAccountDryRun; waddrmgr/scoped_manager.go
-    nextAddresses, loadAccountInfo; walletdb/bdb/db.go Update/Commit;
-    bbolt tx.go Commit):
+    CurrentAddress, recovery, extendFoundAddresses; wallet/createtx.go
+    txToOutputs; wallet/psbt.go FundPsbt; wallet/import.go ImportAccountDryRun;
+    waddrmgr/scoped_manager.go nextAddresses, extendAddresses, loadAccountInfo;
+    walletdb/bdb/db.go Update/Commit; bbolt tx.go Commit):
 
-      w.newAddrMtx.Lock()                       PLock    (only if the site holds it)
+      w.newAddrMtx.Lock()  (or RLock)           PLock    (only if the site takes it)
       walletdb.Update(db, func(tx) {            PBegin   takes bbolt's single writer lock
-        nextAddresses:
+        nextAddresses / extendAddresses:
           acctInfo := loadAccountInfo(..)       PRead    the CACHED acctInfo.next*Index if the
           nextIndex := acctInfo.next..Index              account is cached, else the row on disk
-          putChainedAddress(.. index ..)        PWrite   row next index := nextIndex + n (in tx)
-          tx.OnCommit(onCommit)
+          putChainedAddress(.. index ..)        PWrite   row next index := index + 1 (in tx);
+                                                         extendAddresses ALSO assigns the in-memory
+                                                         next index, last address and address cache
+                                                         right here (eagerly)
+          tx.OnCommit(onCommit)                          (nextAddresses only)
       })  -> tx.Commit():                       PEnd     commit: bbolt tx.close() releases the
             tx.close()                                   writer lock;  or Rollback (dry run /
             for fn in commitHandlers: fn()      PCallback error): nothing is kept, no handler
-      w.newAddrMtx.Unlock()                     PUnlock  acctInfo.next..Index := nextIndex + n
+      w.newAddrMtx.Unlock()                     PUnlock  nextAddresses' handler: acctInfo.next..Index
+                                                         := nextIndex, last..Addr := last derived,
+                                                         s.addrs[..] := every derived address
 
     [Read] happens after [Begin] (the closure runs inside the transaction) and
     the in-memory index is only advanced by the commit handler, which bbolt
@@ -26,7 +31,21 @@
     nothing from this counter (it works on another branch, CurrentAddress
     found an unused address, the transaction needed no change) is a thread
     with [th_n = 0]: it takes the same locks and touches nothing.
-    [th_commits = false] is a dry run / failed closure (transaction rolled back). *)
+    [th_commits = false] is a dry run / failed closure (transaction rolled back).
+
+    Two kinds of thread:
+      request   ([th_ext = None])  derives [th_n] addresses from the index it read;
+      extender  ([th_ext = Some T]) recovery: extendAddresses derives every index
+                from the one it read through T (nothing if T is below it).
+
+    The mutex is a reader/writer lock in the model so that a site that only
+    takes a READ lock can be expressed ([th_shared = true]): read locks exclude
+    the exclusive owner, not each other.
+
+    Besides the next index the commit handler (and extendAddresses) writes the
+    branch's last address and the address cache; they are modelled by the
+    index of the last address ([lastm], meaningful while the account is cached;
+    loadAccountInfo derives it from the row) and by the list of cached indices. *)
 From Verif Require Import Base.Prelude.
 Local Open Scope N_scope.
 
@@ -34,20 +53,26 @@ Inductive pc := PLock | PBegin | PRead | PWrite | PEnd | PCallback | PUnlock | P
 
 Record thread := {
   th_held : bool;      (* the call site holds newAddrMtx around the whole Update *)
-  th_n : N;            (* addresses derived from this counter by the request *)
+  th_shared : bool;    (* ... but only for reading (RLock): does not exclude other readers *)
+  th_n : N;            (* request: addresses derived from this counter *)
+  th_ext : option N;   (* Some T: recovery extending the branch through index T *)
   th_commits : bool    (* the Update commits (false: dry run / error => rollback) *)
 }.
 
 Record tstate := { t_pc : pc; t_reg : N }.
 
 Record state := {
-  mtx : option nat;    (* owner of newAddrMtx *)
+  mtx : option nat;    (* exclusive owner of newAddrMtx *)
+  readers : list nat;  (* holders of a read lock on it *)
   wr : option nat;     (* owner of the database writer lock *)
   mem : option N;      (* cached acctInfo.next index; None = account not cached *)
+  lastm : N;           (* index of the cached last address (meaningful when [mem] is Some) *)
+  cache : list N;      (* indices whose addresses were put into the address cache *)
   disk : N;            (* committed next index of the account row *)
   txd : option N;      (* next index written inside the open write transaction *)
   ts : list tstate;
-  issued : list (nat * N)  (* (thread, index) handed out by committed requests *)
+  issued : list (nat * N)  (* (thread, index) consumed by committed transactions: handed
+                              out to a request, or derived by an extender *)
 }.
 
 Definition pc_eqb (a b : pc) : bool :=
@@ -71,65 +96,126 @@ Definition rangeN (a n : N) : list N :=
 Definition first_pc (th : thread) : pc := if th_held th then PLock else PBegin.
 Definition after_tx (th : thread) : pc := if th_held th then PUnlock else PDone.
 
+Definition is_ext (th : thread) : bool := match th_ext th with Some _ => true | None => false end.
+
+(** addresses the transaction derives from this counter, given the index it read *)
+Definition count_of (th : thread) (r : N) : N :=
+  match th_ext th with
+  | None => th_n th
+  | Some T => if T <? r then 0 else T + 1 - r
+  end.
+
+(** does the transaction load the account (and read the index) at all *)
+Definition reads (th : thread) : bool :=
+  match th_ext th with Some _ => true | None => negb (th_n th =? 0) end.
+
 (** what loadAccountInfo returns: the cache if present, else the row *)
 Definition mem_view (s : state) : N :=
   match mem s with Some m => m | None => disk s end.
 
+(** index of the branch's last address as the running manager answers it
+    (a fresh load derives it from the row: next - 1, or 0) *)
+Definition last_view (s : state) : N :=
+  match mem s with Some _ => lastm s | None => N.pred (disk s) end.
+
 Definition init (ths : list thread) (n0 : N) (cached : bool) : state :=
-  {| mtx := None; wr := None; mem := if cached then Some n0 else None; disk := n0;
-     txd := None; ts := map (fun th => {| t_pc := first_pc th; t_reg := 0 |}) ths;
+  {| mtx := None; readers := []; wr := None;
+     mem := if cached then Some n0 else None; lastm := N.pred n0; cache := [];
+     disk := n0; txd := None;
+     ts := map (fun th => {| t_pc := first_pc th; t_reg := 0 |}) ths;
      issued := [] |}.
 
 Definition set_pc (s : state) (t : nat) (x : tstate) (p : pc) : list tstate :=
   upd (ts s) t {| t_pc := p; t_reg := t_reg x |}.
 
+Definition remove_nat (t : nat) (l : list nat) : list nat :=
+  filter (fun u => negb (Nat.eqb u t)) l.
+
+Definition no_readers (l : list nat) : bool := match l with [] => true | _ => false end.
+
 (** One atomic step of thread [t]; [None] = not enabled (blocked or finished). *)
 Definition step (ths : list thread) (s : state) (t : nat) : option state :=
   match nth_error ths t, nth_error (ts s) t with
   | Some th, Some x =>
-    let n := th_n th in
     match t_pc x with
     | PLock =>
       match mtx s with
-      | None => Some {| mtx := Some t; wr := wr s; mem := mem s; disk := disk s; txd := txd s;
-                        ts := set_pc s t x PBegin; issued := issued s |}
       | Some _ => None
+      | None =>
+        if th_shared th then
+          Some {| mtx := None; readers := t :: readers s; wr := wr s; mem := mem s; lastm := lastm s;
+                  cache := cache s; disk := disk s; txd := txd s;
+                  ts := set_pc s t x PBegin; issued := issued s |}
+        else if no_readers (readers s) then
+          Some {| mtx := Some t; readers := readers s; wr := wr s; mem := mem s; lastm := lastm s;
+                  cache := cache s; disk := disk s; txd := txd s;
+                  ts := set_pc s t x PBegin; issued := issued s |}
+        else None
       end
     | PBegin =>
       match wr s with
-      | None => Some {| mtx := mtx s; wr := Some t; mem := mem s; disk := disk s; txd := txd s;
+      | None => Some {| mtx := mtx s; readers := readers s; wr := Some t; mem := mem s; lastm := lastm s;
+                        cache := cache s; disk := disk s; txd := txd s;
                         ts := set_pc s t x PRead; issued := issued s |}
       | Some _ => None
       end
     | PRead =>
-      if n =? 0 then
-        Some {| mtx := mtx s; wr := wr s; mem := mem s; disk := disk s; txd := txd s;
-                ts := set_pc s t x PWrite; issued := issued s |}
-      else
+      if reads th then
         let m := mem_view s in
-        Some {| mtx := mtx s; wr := wr s; mem := Some m; disk := disk s; txd := txd s;
+        Some {| mtx := mtx s; readers := readers s; wr := wr s; mem := Some m;
+                lastm := last_view s; cache := cache s; disk := disk s; txd := txd s;
                 ts := upd (ts s) t {| t_pc := PWrite; t_reg := m |}; issued := issued s |}
+      else
+        Some {| mtx := mtx s; readers := readers s; wr := wr s; mem := mem s; lastm := lastm s;
+                cache := cache s; disk := disk s; txd := txd s;
+                ts := set_pc s t x PWrite; issued := issued s |}
     | PWrite =>
-      Some {| mtx := mtx s; wr := wr s; mem := mem s; disk := disk s;
-              txd := if n =? 0 then txd s else Some (t_reg x + n);
-              ts := set_pc s t x PEnd; issued := issued s |}
+      let c := count_of th (t_reg x) in
+      if c =? 0 then
+        Some {| mtx := mtx s; readers := readers s; wr := wr s; mem := mem s; lastm := lastm s;
+                cache := cache s; disk := disk s; txd := txd s;
+                ts := set_pc s t x PEnd; issued := issued s |}
+      else if is_ext th then
+        (* extendAddresses: rows written AND memory updated right away *)
+        Some {| mtx := mtx s; readers := readers s; wr := wr s; mem := Some (t_reg x + c);
+                lastm := N.pred (t_reg x + c); cache := cache s ++ rangeN (t_reg x) c;
+                disk := disk s; txd := Some (t_reg x + c);
+                ts := set_pc s t x PEnd; issued := issued s |}
+      else
+        Some {| mtx := mtx s; readers := readers s; wr := wr s; mem := mem s; lastm := lastm s;
+                cache := cache s; disk := disk s; txd := Some (t_reg x + c);
+                ts := set_pc s t x PEnd; issued := issued s |}
     | PEnd =>
       if th_commits th then
-        Some {| mtx := mtx s; wr := None; mem := mem s;
+        Some {| mtx := mtx s; readers := readers s; wr := None; mem := mem s; lastm := lastm s;
+                cache := cache s;
                 disk := match txd s with Some d => d | None => disk s end; txd := None;
                 ts := set_pc s t x PCallback;
-                issued := issued s ++ map (fun i => (t, i)) (rangeN (t_reg x) n) |}
+                issued := issued s ++ map (fun i => (t, i)) (rangeN (t_reg x) (count_of th (t_reg x))) |}
       else
-        Some {| mtx := mtx s; wr := None; mem := mem s; disk := disk s; txd := None;
+        Some {| mtx := mtx s; readers := readers s; wr := None; mem := mem s; lastm := lastm s;
+                cache := cache s; disk := disk s; txd := None;
                 ts := set_pc s t x (after_tx th); issued := issued s |}
     | PCallback =>
-      Some {| mtx := mtx s; wr := wr s;
-              mem := if n =? 0 then mem s else Some (t_reg x + n);
-              disk := disk s; txd := txd s;
-              ts := set_pc s t x (after_tx th); issued := issued s |}
+      if is_ext th || (th_n th =? 0) then
+        Some {| mtx := mtx s; readers := readers s; wr := wr s; mem := mem s; lastm := lastm s;
+                cache := cache s; disk := disk s; txd := txd s;
+                ts := set_pc s t x (after_tx th); issued := issued s |}
+      else
+        Some {| mtx := mtx s; readers := readers s; wr := wr s; mem := Some (t_reg x + th_n th);
+                lastm := N.pred (t_reg x + th_n th);
+                cache := cache s ++ rangeN (t_reg x) (th_n th);
+                disk := disk s; txd := txd s;
+                ts := set_pc s t x (after_tx th); issued := issued s |}
     | PUnlock =>
-      Some {| mtx := None; wr := wr s; mem := mem s; disk := disk s; txd := txd s;
-              ts := set_pc s t x PDone; issued := issued s |}
+      if th_shared th then
+        Some {| mtx := mtx s; readers := remove_nat t (readers s); wr := wr s; mem := mem s;
+                lastm := lastm s; cache := cache s; disk := disk s; txd := txd s;
+                ts := set_pc s t x PDone; issued := issued s |}
+      else
+        Some {| mtx := None; readers := readers s; wr := wr s; mem := mem s; lastm := lastm s;
+                cache := cache s; disk := disk s; txd := txd s;
+                ts := set_pc s t x PDone; issued := issued s |}
     | PDone => None
     end
   | _, _ => None
@@ -145,7 +231,15 @@ Fixpoint exec (ths : list thread) (s : state) (sched : list nat) : option state 
 Definition terminated (s : state) : bool :=
   forallb (fun x => pc_eqb (t_pc x) PDone) (ts s).
 
+(** every index consumed on the branch, in commit order *)
 Definition indices (s : state) : list N := map snd (issued s).
+
+(** the indices handed out to requests (what callers received) *)
+Definition is_request (ths : list thread) (t : nat) : bool :=
+  match nth_error ths t with Some th => negb (is_ext th) | None => false end.
+
+Definition handed (ths : list thread) (s : state) : list (nat * N) :=
+  filter (fun p => is_request ths (fst p)) (issued s).
 
 (** executable duplicate test on the issued indices *)
 Fixpoint has_dup (l : list N) : bool :=
@@ -165,3 +259,9 @@ Fixpoint seq_sched (ths : list thread) (t : nat) : list nat :=
   | [] => []
   | th :: rest => repeat t (prog_len th) ++ seq_sched rest (S t)
   end.
+
+(** plain requests, for examples and witnesses *)
+Definition request (held shared : bool) (n : N) (commits : bool) : thread :=
+  {| th_held := held; th_shared := shared; th_n := n; th_ext := None; th_commits := commits |}.
+Definition extender (held : bool) (T : N) : thread :=
+  {| th_held := held; th_shared := false; th_n := 0; th_ext := Some T; th_commits := true |}.
